@@ -537,10 +537,17 @@ def histories(ctx, tmp, cfgname, req, impl):
                     if cfgname != "inmem":
                         try:
                             mine = [str(u) for u in _uris(b, refs[i])]
-                            twins = [j for j in refs if j != i and j in ident and refs[j].datasetType == refs[i].datasetType and
-                                     set(mine) & {str(u) for u in _uris(b, refs[j])}]
                         except Exception:
-                            twins = []
+                            mine = []
+                        for j in refs:
+                            if j == i or j not in ident or refs[j].datasetType != refs[i].datasetType:
+                                continue
+                            try:
+                                # (a dataset that has been unstored has no URI to ask for: it cannot be the one sitting on the path)
+                                if set(mine) & {str(u) for u in _uris(b, refs[j])}:
+                                    twins.append(j)
+                            except Exception:
+                                continue
                     alike = bool(twins) and all(_alike(refs[i], refs[j]) for j in twins)
                     pct = bool(twins) and not alike and all(_alike(refs[i], refs[j], pct=True) for j in twins)
                     viol(f"[{cfgname}] after {ops[-3:]}: dataset {i} ({ident[i][0]} {dict(ident[i][1])} run {ident[i][2][-1]}) stored as "
